@@ -731,6 +731,36 @@ def parse_key(k: str) -> ast.AST:
         return ast.Name(id=k, ctx=ast.Load())
 
 
+FIVE_TYPES = ("BOOL", "STRING", "INT", "HEX", "FLOAT")
+
+
+def type_atom_truth(repo, modname: str, atom: str, ty: str, attr: str = "orig_type") -> Optional[bool]:
+    """truth of an atomic type test (`x.orig_type == INT`, `is HEX`, `!= BOOL`, `in (INT, HEX)`, `in _INT_HEX`, ...) for a
+    symbol of type `ty`; None when the atom is not a type test. Constants naming type sets are resolved in `modname`."""
+    e = parse_key(atom)
+    if not (isinstance(e, ast.Compare) and len(e.ops) == 1):
+        return None
+    left = e.left
+    if not ((isinstance(left, ast.Attribute) and left.attr in (attr, "type", "orig_type")) or (isinstance(left, ast.Name) and left.id in (attr, "type", "orig_type"))):
+        return None
+    names: Set[str] = set()
+    for x in ast.walk(e.comparators[0]):
+        if isinstance(x, ast.Attribute) and x.attr in FIVE_TYPES:
+            names.add(x.attr)
+        elif isinstance(x, ast.Name):
+            if x.id in FIVE_TYPES:
+                names.add(x.id)
+            elif x.id not in ("kconfiglib", "core"):
+                v = repo.resolve_const(modname, x.id)
+                if v is None:
+                    return None
+                names |= {y.id for y in ast.walk(v) if isinstance(y, ast.Name) and y.id in FIVE_TYPES}
+    if not names:
+        return None
+    hit = ty in names
+    return hit if isinstance(e.ops[0], (ast.Eq, ast.Is, ast.In)) else (not hit)
+
+
 # --------------------------------------------------------------------------- what a predicate function accepts
 class AcceptCondition:
     """The condition under which a predicate function returns a truthy value, as a function of the atomic tests it makes -
